@@ -1,11 +1,12 @@
 (* Extraction of the executable models to OCaml.  ExtrOcamlBasic only: N / positive / nat / ascii stay the
    extracted inductive types; the development adds no Extract Constant / Extract Inductive of its own. *)
 Require Import ExtrOcamlBasic.
-From MDK Require Import Base.Prelude Base.BSet Codec.Varint Codec.TlsVec Codec.Utf8 Codec.GroupDataExt Base.AMap Store.Contract Mdk.Engine Conc.Keyring.
+From MDK Require Import Base.Prelude Base.BSet Codec.Varint Codec.TlsVec Codec.Utf8 Codec.GroupDataExt Base.AMap Store.Contract Mdk.Engine Conc.Keyring Mdk.Welcome.
 Extraction Language OCaml.
 Separate Extraction
   enc_len dec_len utf8_valid
   GroupDataExt.serialize GroupDataExt.deserialize GroupDataExt.wf GroupDataExt.roundtrip_ok
   Contract.empty Contract.step Contract.run
   Engine.init_client Engine.deliver Engine.committed Engine.merge_pending Engine.clear_pending Engine.sent Engine.leave_created AMap.aget
-  Keyring.open_db Keyring.mode_after Keyring.created_dir_modes.
+  Keyring.open_db Keyring.mode_after Keyring.created_dir_modes
+  Welcome.process_welcome Welcome.accept_welcome Welcome.decline_welcome Welcome.note_message Welcome.empty_st.
